@@ -276,7 +276,9 @@ func run(prop, tier string, seed uint64) int {
 	runDir := filepath.Join(root, "run", fmt.Sprintf("%s-%s-%d", prop, tier, os.Getpid()))
 	os.RemoveAll(runDir)
 	os.MkdirAll(runDir, 0o755)
-	defer os.RemoveAll(runDir)
+	if os.Getenv("VERIF_KEEP_RUN") == "" {
+		defer os.RemoveAll(runDir)
+	}
 
 	type job struct {
 		v        variant
